@@ -482,6 +482,63 @@ def r03i(ctx, rep, cr):
                           'this one reverts it on this shard only' % ', '.join(lib.short(x) for x in narrowing))
 
 
+def r03j(ctx, rep, cr):
+    rep.rule('R03j', 'a commit needs the vote of every participant, not a number of votes: DistributedTransaction::all_voted looks each '
+                     'participant up in `votes` (a map lookup on DistributedTransaction.votes in the function or in the closure it hands to '
+                     'the iteration over `participants`) — or, if it merely compares sizes, every insert into `votes` is reachable only '
+                     'through a membership test of the voting shard in `participants`. record_vote does not check that the voter is a '
+                     'participant (a mislabelled or stray response is stored under its shard id), so a count can be reached while a '
+                     'participant has not voted, and the coordinator commits without it')
+    DTX = T.DT + 'DistributedTransaction'
+    f = rep.require_fn('R03j', cr, DTX + '::all_voted')
+    if f is None:
+        return
+    rep.analysed(f)
+
+    def on_field(g, c, field):
+        a = c.arg_local(0)
+        if a is None:
+            return False
+        fs, _ = A.origin_fields(g, a, A.Defs(g))
+        fs = A.place_fields(c.args[0][1]) + fs
+        return any(x == field for x in fs)
+    lookup = False
+    for g in A.with_closures(cr.fns, f.name):
+        for c in A.calls_to(g, ('re', r'HashMap::<K, V, S(, A)?>::(contains_key|get)$')):
+            # inside the closure the map is reached through the captured `self`
+            if on_field(g, c, DTX + '.votes') or any(x == DTX + '.votes' for x in A.field_reads(g)):
+                lookup = True
+    if lookup:
+        rep.holds('R03j', f, 'all_voted', 'each participant is looked up in votes')
+        return
+    # size comparison: then the voters must be restricted to the participants where votes are inserted
+    guarded = True
+    sites = 0
+    for name, g in sorted(cr.fns.items()):
+        if not name.startswith(T.DT) or '{closure' in name:
+            continue
+        gd = None
+        for c in A.calls_to(g, ('re', r'HashMap::<K, V, S(, A)?>::insert$')):
+            if not on_field(g, c, DTX + '.votes'):
+                continue
+            sites += 1
+            gd = gd or A.Defs(g)
+            uses = A.Uses(g)
+            cut = set()
+            for m in A.calls_to(g, ('re', r'(slice::<impl \[T\]>|Vec::<T, A>|HashSet::<T, S(, A)?>)::contains$')):
+                if on_field(g, m, DTX + '.participants'):
+                    cut |= set(A.call_outcome(g, m, uses).ok)
+            if not cut or c.bb in A.reachable(g, [0], cut_edges=cut):
+                guarded = False
+    if sites and guarded:
+        rep.holds('R03j', f, 'all_voted', 'size comparison, and only participants can vote (%d insert site(s) guarded)' % sites)
+    else:
+        rep.violation('R03j', f, 'all-voted-by-count', f.loc(),
+                      'all_voted no longer looks the participants up in `votes`, and votes are stored without checking that the voter is a '
+                      'participant: a vote from a non-participant shard completes the count, the transaction becomes Prepared and commits '
+                      'while a real participant has not voted (and may vote no)')
+
+
 def run(ctx, rep):
     cr = ctx.crate('tensor_chain')
     cg = ctx.callgraph(['tensor_chain'])
@@ -493,5 +550,6 @@ def run(ctx, rep):
     r03g(ctx, rep, cr)
     r03h(ctx, rep, cr, cg)
     r03i(ctx, rep, cr)
+    r03j(ctx, rep, cr)
     import c13
     c13.r13d(ctx, rep, cr)   # the decision never changes afterwards: no phase regression behind a logged decision
